@@ -3,6 +3,7 @@ package main
 import (
 	"fmt"
 	"go/ast"
+	"go/token"
 	"go/types"
 	"sort"
 	"strings"
@@ -95,19 +96,44 @@ func dispatchTable(u *Universe) (map[string]string, map[string]string, []string,
 	}
 	table := map[string]string{}
 	pos := map[string]string{}
-	bitsOf := func(cond ast.Expr) string {
-		s, c := false, false
-		ast.Inspect(cond, func(n ast.Node) bool {
-			if sel, ok := n.(*ast.SelectorExpr); ok {
-				switch sel.Sel.Name {
-				case "HasSubscribeBit":
-					s = true
-				case "HasCreateBit":
-					c = true
+	// locals that hold a bit test (wantsSubscribe := its.gotOption.HasSubscribeBit()) stand for their initialiser
+	inits := map[types.Object]ast.Expr{}
+	ast.Inspect(fd.Body, func(n ast.Node) bool {
+		as, ok := n.(*ast.AssignStmt)
+		if !ok || as.Tok != token.DEFINE || len(as.Lhs) != len(as.Rhs) {
+			return true
+		}
+		for i, l := range as.Lhs {
+			if id, isID := l.(*ast.Ident); isID {
+				if obj := info.Defs[id]; obj != nil {
+					inits[obj] = as.Rhs[i]
 				}
 			}
-			return true
-		})
+		}
+		return true
+	})
+	bitsOf := func(cond ast.Expr) string {
+		s, c := false, false
+		var visit func(e ast.Node, depth int)
+		visit = func(e ast.Node, depth int) {
+			ast.Inspect(e, func(n ast.Node) bool {
+				if sel, ok := n.(*ast.SelectorExpr); ok {
+					switch sel.Sel.Name {
+					case "HasSubscribeBit":
+						s = true
+					case "HasCreateBit":
+						c = true
+					}
+				}
+				if id, ok := n.(*ast.Ident); ok && depth < 3 {
+					if init, has := inits[info.Uses[id]]; has {
+						visit(init, depth+1)
+					}
+				}
+				return true
+			})
+		}
+		visit(cond, 0)
 		switch {
 		case s && c:
 			return "S|C"
